@@ -133,6 +133,34 @@ pub enum Error {
         #[label(primary, "invalid version")]
         span: SourceSpan,
     },
+    /// Types or expressions are nested too deeply.
+    #[error("types and expressions may not be nested more than {max} levels deep", max = MAX_NESTING_DEPTH)]
+    NestingTooDeep {
+        /// The span where the nesting limit was exceeded.
+        #[label(primary, "nested too deeply")]
+        span: SourceSpan,
+    },
+}
+
+/// The maximum nesting depth of types and expressions.
+///
+/// The parser is recursive; the limit keeps deeply nested input from overflowing the stack.
+const MAX_NESTING_DEPTH: usize = 64;
+
+/// Parses a construct that may nest within itself, enforcing the nesting limit.
+pub(crate) fn parse_nested<'a, F, R>(lexer: &mut Lexer<'a>, cb: F) -> ParseResult<R>
+where
+    F: FnOnce(&mut Lexer<'a>) -> ParseResult<R>,
+{
+    let result = if lexer.enter() > MAX_NESTING_DEPTH {
+        Err(Error::NestingTooDeep {
+            span: lexer.peek().map_or_else(|| lexer.span(), |(_, span)| span),
+        })
+    } else {
+        cb(lexer)
+    };
+    lexer.leave();
+    result
 }
 
 /// Represents a parse result.
